@@ -1,6 +1,7 @@
 import Op2Proofs.SliceNesting
 import Op2Proofs.TypedReads
 import Op2Proofs.LittleEndian
+import Op2Proofs.SysAtomic
 /-!
 # C12 — readers deliver exactly the addressed bytes and fail atomically at bounds
 
@@ -355,5 +356,18 @@ theorem C12_prefixed_memory (s : MemR) (h : s.Inv)
   cases hr : RSpec.rd t k with
   | error e => exact rfl
   | ok p => obtain ⟨b, t'⟩ := p; exact ⟨rfl, rfl, rd_inv t t' b k ht hr⟩
+
+/-! ## failing atomically — on the implementation models themselves, from any state -/
+
+/-- a refused `Read` / `Peek` / `Seek…` leaves the reader exactly as it was — cursor, window, wrapped stream — on the `MemoryReader`
+    model, the file model, a file slice and a slice of a file slice; no invariant is assumed and the argument is arbitrary
+    (`C12_failure_is_noop` says it of the specification; this says it of every implementation model directly) -/
+theorem C12_failure_is_noop_every_backend (r : Rd) (op : ROp) (h : (r.step op).1 = .err) : (r.step op).2 = r :=
+  Rd.step_err_noop r op h
+
+/-- the same for the slice-creating requests: a refused `Slice(start,len)` / `Slice(len)` changes nothing -/
+theorem C12_refused_request_is_noop (r : Rd) (o : OOp)
+    (h : (r.ostep o).1 = .out .err ∨ (r.ostep o).1 = .failed ∨ (r.ostep o).1 = .unsupported) : (r.ostep o).2 = r :=
+  Rd.ostep_refused_noop r o h
 
 end Op2.Props.C12
